@@ -40,7 +40,16 @@ fn c16_sprite(rng: &mut Rng, i: u64) -> (Sprite, asemon::program::PaletteProgram
         // >= 8 external files and several tilesets: HashMap iteration order matters
         sp.ext_files.clear();
         for k in 0..rng.range(8, 14) as u32 {
-            sp.ext_files.push(ExtFileM { id: k * 7 + 1, name: format!("ext{}", k) });
+            // every other such sprite: only two distinct file names among the entries (several ids for one file)
+            sp.ext_files.push(ExtFileM { id: k * 7 + 1, name: if i % 4 == 2 { format!("ext{}", k % 2) } else { format!("ext{}", k) } });
+        }
+        // tileset links that resolve to those entries (embedded tilesets may carry a link as well)
+        let ids: Vec<u32> = sp.ext_files.iter().map(|e| e.id).collect();
+        for t in sp.tilesets.iter_mut() {
+            if rng.chance(2, 3) {
+                t.flags |= TS_LINK;
+                t.ext = Some((*rng.pick(&ids), rng.u32() % 5));
+            }
         }
     }
     (sp, pp)
